@@ -281,3 +281,27 @@ func (kd kern2) joinBad(l, r uint16) uint16 {
 	}
 	return binary.BigEndian.Uint16(kd.data[index:])
 }
+
+// an index that is one of two constants, tested after the join
+func constPhiGood(src []byte, ot bool) byte {
+	at := 5
+	if ot {
+		at = 4
+	}
+	if len(src) >= 6 && src[at] > 3 {
+		return src[at]
+	}
+	return 0
+}
+
+// the same with a test that is too weak for one of the constants
+func constPhiBad(src []byte, ot bool) byte {
+	at := 5
+	if ot {
+		at = 4
+	}
+	if len(src) >= 5 && src[at] > 3 {
+		return 1
+	}
+	return 0
+}
